@@ -471,6 +471,7 @@ def scenario_wise_eval(case, lab, labels):
     """a bi-affine expression of here-and-now decisions and two random arrays, evaluated at realisations given for all scenarios at
     once and / or scenario by scenario (assign(..., sw=True)), in both argument orders"""
     import pandas as pd
+    import rsome as rso
     from rsome import dro, E
     S = case['S']
     xv = np.array([1.5, -2.0])
@@ -479,9 +480,13 @@ def scenario_wise_eval(case, lab, labels):
     z = m.rvar(2)
     u = m.rvar(1)
     fs = m.ambiguity()
-    fs.suppset(abs(z) <= 1, abs(u) <= 1)
-    m.minsup(E(x.sum() + z.sum() + u.sum()), fs)
-    m.st(x == xv)
+    for s_ in range(S):
+        fs[lab[s_]].suppset(abs(z - s_) <= 1, abs(u) <= 1)
+    wv = m.dvar(1)                # event-wise, one event per scenario: w_s = s + 1 (worst case of z[0] in scenario s)
+    for l_ in lab[1:]:
+        wv.adapt(l_)
+    m.minsup(E(x.sum() + z.sum() + u.sum() + wv.sum()), fs)
+    m.st(x == xv, wv >= z[0])
     y = m.dvar(1)                 # affinely adaptive, the same rule in every scenario
     y.adapt(u)
     m.st(y == 2 * u + 1)
@@ -502,6 +507,8 @@ def scenario_wise_eval(case, lab, labels):
               ('e(z.assign(sw), u.assign(sw))', lambda: e(z.assign(zs, sw=True), u.assign(us, sw=True)), [val(zs[s_], us[s_]) for s_ in range(S)]),
               ('e(z.assign, u.assign)', lambda: e(z.assign(np.array(zv)), u.assign(uv)), [val(zv, uv)] * S),
               ('e(z.assign(sw))', lambda: e(z.assign(zs, sw=True)), [val(zs[s_], [0.0]) for s_ in range(S)]),
+              ('(norm(x) + w)()', lambda: (rso.norm(x) + wv)(), [np.array([float(np.linalg.norm(xv)) + s_ + 1.0]) for s_ in range(S)]),
+              ('(2*abs(x[0]) - w)()', lambda: (2 * abs(x[0]) - wv)(), [np.array([2 * abs(xv[0]) - s_ - 1.0]) for s_ in range(S)]),
               ('y(u.assign(sw))', lambda: y(u.assign(us, sw=True)), [2 * us[s_] + 1 for s_ in range(S)]),
               ('y(u.assign)', lambda: y(u.assign(uv)), [2 * uv + 1] * S),
               ('(3*y - x[0])(u.assign(sw))', lambda: (3 * y - x[0])(u.assign(us, sw=True)), [3 * (2 * us[s_] + 1) - xv[0] for s_ in range(S)])]
